@@ -473,10 +473,13 @@ func lockPropBody(rt *rapid.T, agg *aggStats) (fail *failure, trace []string, nt
 			// nothing to do: a stale lock after a kill is removed by the operator
 		}
 	}
-	if holder >= 0 {
-		in := insts[holder]
-		_ = in.r.Shutdown(context.Background())
-		<-in.done
+	// every instance that is serving is stopped (after a violation more than
+	// one may be), so that the verdict is not masked by leftover goroutines
+	for _, in := range insts {
+		if in.serving {
+			_ = in.r.Shutdown(context.Background())
+			<-in.done
+		}
 	}
 	for _, in := range insts {
 		_ = in.r.storage.log.Close()
